@@ -530,5 +530,25 @@ func isCBORMapAudit() bool {
 			}
 		}
 	}
+	// A-def-reserved: a reserved / invalid tag head (additional information 28..31), bare or under
+	// well-formed tags, followed by anything, is refused by the decoder the selector goes through
+	for ai := byte(28); ai <= 31; ai++ {
+		for _, pre := range append(heads, []byte{}) {
+			for _, t := range [][]byte{{0xa0}, {0xf6}, {0, 0, 0, 0, 0, 0, 0, 0, 0, 0, 0, 0, 0, 0, 0, 0, 0xa0}, {}} {
+				b := append(append(append([]byte{}, pre...), 0xc0|ai), t...)
+				var sel *struct {
+					Profile string `cbor:"265,keyasint"`
+				}
+				if err := dm.Unmarshal(b, &sel); err == nil {
+					fmt.Printf("bounded: reserved tag head %x accepted by the decoder\n", b)
+					return false
+				}
+				if c, err := DecodeClaimsFromCBOR(b); err == nil {
+					fmt.Printf("bounded: reserved tag head %x decoded as %T\n", b, c)
+					return false
+				}
+			}
+		}
+	}
 	return true
 }
